@@ -33,7 +33,10 @@ func c17Judge(sc *WF, tr []Ev) (fp, msg string) {
 			// "the result the exec function returns - ... its error state when it is an error result -
 			// is what the post function receives": an error Result returned with a nil Go error is
 			// the exec outcome, so the next thing that happens to this node is its post function
-			if needPost != nil && e.Phase != "post" && e.Phase != "exec" { // (retrying after an error Result is left open)
+			if needPost != nil && e.Phase == "fb" {
+				needPost = nil // (retrying, or consulting a fallback, after an error Result is left open)
+			}
+			if needPost != nil && e.Phase != "post" && e.Phase != "exec" {
 				return "C17:error-result-not-delivered", fmt.Sprintf("%s: exec returned an error Result (nil error) carrying %q; instead of handing it to the post function the node went on with %s", name, needPost.RetResErr, e)
 			}
 			switch e.Phase {
